@@ -13,6 +13,7 @@
                            permutations; network digests before / after) *)
 From Coq Require Import QArith Permutation.
 From Verif Require Import Prelude Model.Verdict Model.Batch Proofs.Verdict Proofs.Batch.
+From Verif Require Model.Spectrum Proofs.SpectrumBase Proofs.Spectrum3 Proofs.Spectrum5 Proofs.Spectrum6 Proofs.BatchSpectrum.
 Open Scope Z_scope.
 
 (* The (route, figures, verdict, propagated copy) of the request at ANY position of ANY batch, under any spectrum
@@ -72,6 +73,52 @@ Theorem request_internal_fresh : forall d ls p, same_shape d p ->
 Proof. exact Proofs.Batch.run_loads_fresh. Qed.
 Print Assumptions request_internal_fresh.
 
+(* ---- "only the spectrum slots depend on what was assigned earlier" ---- *)
+(* the spectrum fold of planning(), instantiated with the C14 model (Model/Spectrum.v), IS the request history of C14:
+   the N/M answers of a batch are the outcomes of Spectrum.run on the spectrum requests of the batch, in order, and the
+   non-spectrum results / the network are what batch_indep says.  Hence every C14 theorem (C14_request, C14_history,
+   C14_no_double_booking, first fit ...) speaks about planning(). *)
+Theorem planning_spectrum_is_C14_history : forall pol sreq n rqs st0 st' outs,
+  Model.Spectrum.run pol st0 (sreqs_of sreq n rqs) = Ok (st', outs) ->
+  planning (spectrum_assign pol sreq) n (Ok st0) rqs =
+  (n, Ok st', combine (map (fun rq => fst (evaluate n rq)) rqs) (map (@Ok Model.Spectrum.outcome) outs)).
+Proof. exact Proofs.BatchSpectrum.planning_spectrum_run. Qed.
+Print Assumptions planning_spectrum_is_C14_history.
+
+(* what a request gets only looks at the bitmaps of the OMS it crosses ... *)
+Theorem spectrum_outcome_is_local : forall d p st1 st2 rq,
+  Spectrum3.WFst d st1 -> Spectrum3.WFst d st2 ->
+  Spectrum3.valid_ids st1 (Model.Spectrum.path_oms rq) -> Spectrum3.valid_ids st2 (Model.Spectrum.path_oms rq) ->
+  Model.Spectrum.path_oms rq <> [] -> 0 < Spectrum5.rq_pcm rq -> Forall Spectrum6.slot_pos (Model.Spectrum.slots rq) ->
+  BatchSpectrum.same_bitmaps st1 st2 (Model.Spectrum.path_oms rq) ->
+  exists s1 s2 o, Model.Spectrum.pth_assign_one p st1 rq = Ok (s1, o) /\ Model.Spectrum.pth_assign_one p st2 rq = Ok (s2, o).
+Proof. exact Proofs.BatchSpectrum.outcome_local. Qed.
+Print Assumptions spectrum_outcome_is_local.
+
+(* ... and those bitmaps are the initial ones plus exactly the ACCEPTED assignments on them (C14_history).  So: after two
+   different histories A and B on the same initial spectrum state (other requests, other orders, blocked or failing
+   requests included) that booked the same slots on the OMS of the request's path, the request gets the same N/M (or the
+   same blocking reason) — whatever happened on the other OMS and whatever was blocked in between. *)
+Theorem spectrum_depends_only_on_shared_bookings : forall d p st0 rqsA rqsB stA outsA stB outsB rq,
+  Spectrum3.WFst d st0 -> Forall (Spectrum5.rq_ok st0) rqsA -> Forall (Spectrum5.rq_ok st0) rqsB ->
+  Model.Spectrum.run p st0 rqsA = Ok (stA, outsA) -> Model.Spectrum.run p st0 rqsB = Ok (stB, outsB) ->
+  Spectrum3.valid_ids st0 (Model.Spectrum.path_oms rq) -> Model.Spectrum.path_oms rq <> [] ->
+  0 < Spectrum5.rq_pcm rq -> Forall Spectrum6.slot_pos (Model.Spectrum.slots rq) ->
+  (forall i k, In i (Model.Spectrum.path_oms rq) ->
+     Spectrum5.booked (Spectrum5.log_of rqsA outsA) i k = Spectrum5.booked (Spectrum5.log_of rqsB outsB) i k) ->
+  exists sA sB o, Model.Spectrum.pth_assign_one p stA rq = Ok (sA, o) /\ Model.Spectrum.pth_assign_one p stB rq = Ok (sB, o).
+Proof. exact Proofs.BatchSpectrum.spectrum_depends_only_on_shared_bookings. Qed.
+Print Assumptions spectrum_depends_only_on_shared_bookings.
+
+(* the amplifier state behind copy_needed_refuted, in dB (numerically compared with every Edfa of the batch runs): on
+   shared objects each gain is the clamp of the previous one and never comes back up; with the copy every object starts
+   from the designed gain (C13 amplifier_state_in_mode_loop / amplifier_state_when_shared) *)
+Theorem shared_amplifier_keeps_its_clamp : forall g0 pmax pins,
+  amp_history g0 pmax (shared_events pins) = running pmax g0 pins /\
+  Sorted.StronglySorted (fun a b => (b <= a)%Q) (running pmax g0 pins).
+Proof. intros. split; [apply Proofs.Verdict.shared_history | apply Proofs.Verdict.running_decreasing]. Qed.
+Print Assumptions shared_amplifier_keeps_its_clamp.
+
 (* the validator applied to observed behaviour decides its specification *)
 Theorem obs_ok_iff : forall o, obs_ok o = true <-> ObsSpec o.
 Proof. exact Proofs.Batch.obs_ok_iff. Qed.
@@ -99,4 +146,28 @@ Example ex_validator :
                 [mkRun 7 7 [(2, mkSig [2; 1] (-1) 3 []); (1, mkSig [1; 2] 0 0 [25000001; 31000000])]]) = true /\
   obs_ok (mkObs 7 [(1, mkSig [1; 2] 0 0 [25000000])] [mkRun 7 7 [(1, mkSig [1; 2] 0 0 [25000002])]]) = false /\
   obs_ok (mkObs 7 [(1, mkSig [1; 2] 0 0 [25000000])] [mkRun 7 8 [(1, mkSig [1; 2] 0 0 [25000000])]]) = false.
+Proof. repeat split; vm_compute; reflexivity. Qed.
+
+(* the spectrum fold on a two-OMS spectrum state: request 3 (OMS 0) gets the same slot after the history [request on OMS 1]
+   as after the empty history, and another one after a request accepted on OMS 0 *)
+Definition ex_sb : Model.Spectrum.bitmap := Model.Spectrum.mkB (-8) 8 (-6) 6 2 (zrange (-8) 9) (repeat Model.Spectrum.SF 17).
+Definition ex_sst : Model.Spectrum.state := [Model.Spectrum.mkO ex_sb 0 []; Model.Spectrum.mkO ex_sb 0 []].
+Definition ex_sr (id : Z) (oms : Z) : Model.Spectrum.request :=
+  Model.Spectrum.mkR id false 100 25000000000 100 [(None, None)] [oms].
+Example ex_spectrum_locality :
+  (exists s, Model.Spectrum.run Model.Spectrum.FirstFit ex_sst [ex_sr 2 1; ex_sr 3 0] =
+             Ok (s, [Model.Spectrum.Accepted [-4] [2]; Model.Spectrum.Accepted [-4] [2]])) /\
+  (exists s, Model.Spectrum.run Model.Spectrum.FirstFit ex_sst [ex_sr 3 0] = Ok (s, [Model.Spectrum.Accepted [-4] [2]])) /\
+  (exists s, Model.Spectrum.run Model.Spectrum.FirstFit ex_sst [ex_sr 1 0; ex_sr 3 0] =
+             Ok (s, [Model.Spectrum.Accepted [-4] [2]; Model.Spectrum.Accepted [0] [2]])).
+Proof. repeat split; eexists; vm_compute; reflexivity. Qed.
+(* planning() with the C14 fold on the witness network: both requests feasible, slots in batch order *)
+Definition ex_sreq (rq : request) (ok : bool) : Model.Spectrum.request :=
+  Model.Spectrum.mkR (q_id rq) (negb ok) 100 25000000000 100 [(None, None)] [0].
+Example ex_planning_with_C14_fold :
+  map snd (snd (planning (spectrum_assign Model.Spectrum.FirstFit ex_sreq) w_net (Ok ex_sst) [w_hot; w_cold])) =
+    [Ok (Model.Spectrum.Accepted [-4] [2]); Ok (Model.Spectrum.Accepted [0] [2])] /\
+  map snd (snd (planning (spectrum_assign Model.Spectrum.FirstFit ex_sreq) w_net (Ok ex_sst) [w_cold; w_hot])) =
+    [Ok (Model.Spectrum.Accepted [-4] [2]); Ok (Model.Spectrum.Accepted [0] [2])] /\
+  map (fun x => r_id (fst x)) (snd (planning (spectrum_assign Model.Spectrum.FirstFit ex_sreq) w_net (Ok ex_sst) [w_cold; w_hot])) = [2; 1].
 Proof. repeat split; vm_compute; reflexivity. Qed.
